@@ -184,8 +184,15 @@ let () = iter_lines (fun line ->
   | "brd" :: hex :: ops ->
     (* the 64-bit window bit reader model on a script of operations (see Vp8lBitReader.br_run) *)
     let data = if hex = "-" then [] else zbytes_of_hex hex in
-    let res = Vp8lBitReader.br_run (Stdlib.List.map z_of_string ops) (Vp8lBitReader.br_new data) in
-    Printf.printf "I %s\n" (String.concat "," (Stdlib.List.map (fun (v, e) -> Printf.sprintf "%s:%d" (string_of_z v) (if e then 1 else 0)) res))
+    let opz = Stdlib.List.map z_of_string ops in
+    let res = Vp8lBitReader.br_run opz (Vp8lBitReader.br_new data) in
+    let show r = String.concat "," (Stdlib.List.map (fun (v, e) -> Printf.sprintf "%s:%d" (string_of_z v) (if e then 1 else 0)) r) in
+    (* scripts that keep the decoder's refill discipline (wf_scriptb, proved sound) also get the
+       specification side: the fields of the byte string read as one little-endian integer *)
+    let lim = z_of_int (8 * Stdlib.List.length data) in
+    if Vp8lBitReaderFill.wf_scriptb lim opz (z_of_int 0) (z_of_int 56)
+    then Printf.printf "I %s S %s\n" (show res) (show (Vp8lBitReaderFill.spec_script (Vp8lBitReader.le_value data) opz (z_of_int 0)))
+    else Printf.printf "I %s\n" (show res)
   | ["p2d"; w; code] ->
     let r = string_of_z (Vp8lSpec.plane_to_dist (z_of_string w) (z_of_string code)) in
     Printf.printf "I %s S %s\n" r r
